@@ -13,7 +13,8 @@ for d in sorted(glob.glob(os.path.join(V, "seeded", "*"))):
     summ = summ if len(summ) < 170 else summ[:167] + "..."
     caught = ", ".join(m.get("caught_by") or []) or "—"
     ran = ", ".join("%s:%s" % (c, {0: "pass", 1: "VIOLATION", 3: "harness-error"}.get(v["exit"], v["exit"])) for c, v in sorted(m.get("checks", {}).items()))
-    rows.append("| %s | %s | %s | %s | %s |" % (name, m.get("property"), summ, caught, m.get("note", ran)))
+    note = m.get("note")
+    rows.append("| %s | %s | %s | %s | %s |" % (name, m.get("property"), summ, caught, ran + (" — " + note if note else "")))
 table = "| seeded change | breaks | what it does | caught by | checks run (exit) / note |\n|---|---|---|---|---|\n" + "\n".join(rows)
 n = len(rows); c = sum(1 for r in rows if "| — |" not in r)
 table += "\n\n%d seeded changes, %d caught by at least one check (quick tier unless noted).\n" % (n, c)
